@@ -94,4 +94,13 @@ def WF : Msg → Prop
   | .request => True
   | .status l => ∀ d ∈ l, WFRec d
 
+/-- run-time test of `WFRec` -/
+def wfRecBool (d : AcTimerStatusData) : Bool :=
+  decide (d.ac_number < 256) && wfStateBool d.on_timer && wfStateBool d.off_timer
+
+/-- run-time test of `WF` -/
+def wfBool : Msg → Bool
+  | .request => true
+  | .status l => l.all wfRecBool
+
 end PyAirtouch.Model.At5.C033
